@@ -10,6 +10,7 @@ from . import carving_space, disc_space
 
 PROP = "C04"
 BIG_SCALE = [1.0, 202300.0]  # boundaries that differ only beyond 4 significant digits
+BIG_SCALE2 = [0.1, 1.7e9]  # ... beyond 10 significant digits (timestamps a tenth of a second apart)
 
 
 def fitted_object(case):
@@ -95,7 +96,8 @@ def enumerate_cases(tier, seed):
     for cells in tabs:
         for cls in ("Discretizer", "QuantitativeDiscretizer"):
             for mf in (0.1,) if tier == "quick" else (0.1, 0.05, 0.2):
-                cases.append({"type": "disc", "cls": cls, "kind": "QNT", "cells": [list(c) for c in cells], "nan": None, "min_freq": mf, "target": "binary", "seed": seed, "companion": None, "scale": BIG_SCALE})
+                for sc in (BIG_SCALE, BIG_SCALE2):
+                    cases.append({"type": "disc", "cls": cls, "kind": "QNT", "cells": [list(c) for c in cells], "nan": None, "min_freq": mf, "target": "binary", "seed": seed, "companion": None, "scale": sc})
     # B. carvers: all four (output_dtype, dropna) combinations
     for carver in ("binary", "continuous"):
         for kind in ("ORD", "QNT", "CAT", "NUMCAT"):
@@ -116,6 +118,24 @@ def enumerate_cases(tier, seed):
                                 if scale:
                                     c["scale"] = scale
                                 cases.append(c)
+    # ordinal features whose values are numeric codes ranked in DESCENDING order (rank != code), float and str output
+    for carver in ("binary", "continuous"):
+        tabs, tr = carving_space.tables(carver, "ORD", tier, kmax=4 if tier != "quick" else 3)
+        transitions += tr
+        for cells in tabs[:: 1 if tier != "quick" else 2]:
+            k = len(cells)
+            for values in ([k - 1 - i for i in range(k)], [k - i for i in range(k)], [float(k - i) for i in range(k)]):
+                for od in ("float", "str"):
+                    cfg = {"sort_by": "tschuprowt", "max_n_mod": 4, "min_freq": 0.05, "min_freq_mod": None, "output_dtype": od, "dropna": True}
+                    cases.append({"type": "carver", "carver": carver, "kind": "ORD", "cells": [list(x) for x in cells], "nan": None, "dev": None, "cfg": cfg, "seed": seed, "values": values})
+    # MulticlassCarver (per-class columns f_<class>)
+    for kind in ("ORD", "QNT", "CAT"):
+        tabs, tr = carving_space.tables("multiclass", kind, tier, kmax=3)
+        transitions += tr
+        for cells in tabs[:: 1 if tier != "quick" else 2]:
+            for od in ("float", "str"):
+                cfg = {"sort_by": "cramerv", "max_n_mod": 3, "min_freq": 0.05, "min_freq_mod": None, "output_dtype": od, "dropna": True}
+                cases.append({"type": "carver", "carver": "multiclass", "kind": kind, "cells": [list(x) for x in cells], "nan": None, "dev": None, "cfg": cfg, "seed": seed})
     transitions += len(cases)
     return cases, transitions
 
